@@ -207,3 +207,60 @@ pub fn random_opt(g: &mut Gen) -> OptSpec {
         _ => OptSpec::Rmsprop(lr, 0.9, 1e-8, None, if g.rng().coin() { Some(0.5) } else { None }, g.rng().coin()),
     }
 }
+
+
+/// a heterogeneous stack of shape-preserving layers on a `c x 3 x 3` input — every layer kind next to every
+/// other, feedback blocks in the middle, a dense layer at the end — so that builders, skip connections and loop
+/// connections meet every kind of neighbour.  Layers: 0 feedback{conv}, 1 conv, 2 deconv (1x1), 3 max-pool (1x1),
+/// 4 feedback{deconv}, 5 dense.
+pub fn zoo_net(g: &mut Gen, c: usize) -> (NetSpec, Sh) {
+    let conv = |g: &mut Gen, act: &str| InnerSpec::Conv { filters: c, act: act.to_string(), k: (3, 3), s: (1, 1), p: (1, 1), d: (1, 1), dropout: None,
+        ks: (0..c).map(|_| weights(g, &Shape::Triple(c, 3, 3), 0.35)).collect() };
+    let deconv3 = |g: &mut Gen, act: &str| InnerSpec::Deconv { filters: c, act: act.to_string(), k: (3, 3), s: (1, 1), p: (1, 1), dropout: None,
+        ks: (0..c).map(|_| weights(g, &Shape::Triple(c, 3, 3), 0.35)).collect() };
+    let deconv1 = |g: &mut Gen, act: &str| InnerSpec::Deconv { filters: c, act: act.to_string(), k: (1, 1), s: (1, 1), p: (0, 0), dropout: None,
+        ks: (0..c).map(|_| weights(g, &Shape::Triple(c, 1, 1), 0.8)).collect() };
+    let cfg = ArchCfg::small();
+    let builds = vec![
+        Build::Feedback { inner: vec![conv(g, "tanh")], loops: 2, inskips: false, outskips: false, acc: "add".into() },
+        Build::Layer(conv(g, "sigmoid")),
+        Build::Layer(deconv1(g, "tanh")),
+        Build::Layer(InnerSpec::Maxpool { k: (1, 1), s: (1, 1) }),
+        Build::Feedback { inner: vec![deconv3(g, "tanh")], loops: 2, inskips: false, outskips: false, acc: "add".into() },
+        Build::Layer(dense_spec(g, &cfg, c * 9, 2, "tanh", true)),
+    ];
+    (NetSpec { input: Shape::Triple(c, 3, 3), builds, skipacc: "add".into(), loopacc: "mean".into(), opt: None, obj: "mse".into(), clamp: None }, Sh::Flat(2))
+}
+
+
+/// the other neighbourhoods: 0 conv, 1 feedback{conv}, 2 deconv (after a block), 3 feedback{deconv} (after a
+/// deconvolution), 4 feedback{conv, max-pool 1x1} (after a block), 5 max-pool (after a block), 6 dense
+pub fn zoo_net2(g: &mut Gen, c: usize) -> (NetSpec, Sh) {
+    let conv = |g: &mut Gen, act: &str| InnerSpec::Conv { filters: c, act: act.to_string(), k: (3, 3), s: (1, 1), p: (1, 1), d: (1, 1), dropout: None,
+        ks: (0..c).map(|_| weights(g, &Shape::Triple(c, 3, 3), 0.35)).collect() };
+    let deconv3 = |g: &mut Gen, act: &str| InnerSpec::Deconv { filters: c, act: act.to_string(), k: (3, 3), s: (1, 1), p: (1, 1), dropout: None,
+        ks: (0..c).map(|_| weights(g, &Shape::Triple(c, 3, 3), 0.35)).collect() };
+    let cfg = ArchCfg::small();
+    let builds = vec![
+        Build::Layer(conv(g, "tanh")),
+        Build::Feedback { inner: vec![conv(g, "sigmoid")], loops: 2, inskips: false, outskips: false, acc: "mean".into() },
+        Build::Layer(deconv3(g, "tanh")),
+        Build::Feedback { inner: vec![deconv3(g, "tanh")], loops: 1, inskips: false, outskips: false, acc: "add".into() },
+        Build::Feedback { inner: vec![conv(g, "tanh"), InnerSpec::Maxpool { k: (1, 1), s: (1, 1) }], loops: 2, inskips: false, outskips: false, acc: "add".into() },
+        Build::Layer(InnerSpec::Maxpool { k: (1, 1), s: (1, 1) }),
+        Build::Layer(dense_spec(g, &cfg, c * 9, 2, "tanh", true)),
+    ];
+    (NetSpec { input: Shape::Triple(c, 3, 3), builds, skipacc: "add".into(), loopacc: "mean".into(), opt: None, obj: "mse".into(), clamp: None }, Sh::Flat(2))
+}
+
+/// flat neighbourhoods: 0 dense, 1 feedback{dense} (after dense), 2 feedback{dense, dense} (after a block), 3 dense (after a block)
+pub fn zoo_flat(g: &mut Gen) -> (NetSpec, Sh) {
+    let cfg = ArchCfg::small();
+    let builds = vec![
+        Build::Layer(dense_spec(g, &cfg, 3, 3, "tanh", true)),
+        Build::Feedback { inner: vec![dense_spec(g, &cfg, 3, 3, "sigmoid", true)], loops: 2, inskips: false, outskips: false, acc: "mean".into() },
+        Build::Feedback { inner: vec![dense_spec(g, &cfg, 3, 2, "tanh", false), dense_spec(g, &cfg, 2, 3, "tanh", true)], loops: 2, inskips: false, outskips: false, acc: "add".into() },
+        Build::Layer(dense_spec(g, &cfg, 3, 2, "tanh", true)),
+    ];
+    (NetSpec { input: Shape::Single(3), builds, skipacc: "add".into(), loopacc: "mean".into(), opt: None, obj: "mse".into(), clamp: None }, Sh::Flat(2))
+}
